@@ -182,8 +182,9 @@ theorem small_toInt (w : Word) (h : w.toNat < 3) : w.toInt = (w.toNat : Int) := 
   rw [if_pos (by omega)]
 
 /-- A call through a `val` name is the system call with that number. -/
-theorem execS_valcall (fuel : Nat) (g : String) (args : List X.Expr) (σ : X.St) (w : Word) (hρ : K.ρ g = some w)
-    (hw : w.toNat < 3) (hp : ∀ e ∈ args, pureE e = true) :
+theorem execS_valcall_of (fuel : Nat) (g : String) (args : List X.Expr) (σ : X.St) (w : Word) (hρ : K.ρ g = some w)
+    (hw : w.toNat < 3)
+    (hS : ExecS K exitJ (optStmt (annotS K.ρ (.syscall w.toNat args))) σ (X.exec fuel K.xc (.syscall w.toNat args) σ)) :
     ExecS K exitJ (optStmt (annotS K.ρ (.call g args))) σ (X.exec fuel K.xc (.call g args) σ) := by
   intro gs code gs' i a b mem hg hat hr hsz hnl hci
   have hsys : sysOf K.ρ g = ((w.toNat : Nat) : Int) := by
@@ -210,7 +211,12 @@ theorem execS_valcall (fuel : Nat) (g : String) (args : List X.Expr) (σ : X.St)
         rw [ht]
         simp only [hres, BitVec.ofNat_toNat, BitVec.setWidth_eq]
   rw [hx]
-  exact execS_syscall K exitJ wf fuel w.toNat args σ hw hp gs code gs' i a b mem hg' hat hr hsz hnl hci
+  exact hS gs code gs' i a b mem hg' hat hr hsz hnl hci
+
+theorem execS_valcall (fuel : Nat) (g : String) (args : List X.Expr) (σ : X.St) (w : Word) (hρ : K.ρ g = some w)
+    (hw : w.toNat < 3) (hp : ∀ e ∈ args, pureE e = true) :
+    ExecS K exitJ (optStmt (annotS K.ρ (.call g args))) σ (X.exec fuel K.xc (.call g args) σ) :=
+  execS_valcall_of K exitJ wf fuel g args σ w hρ hw (execS_syscall K exitJ wf fuel w.toNat args σ hw hp)
 
 omit wf in
 theorem optStmt_seq (ρ : String → Option Word) (ss : List X.Stmt) :
